@@ -163,7 +163,7 @@ def generate_live(prop: str, seed: int, tier: str, index: int, *, templates=None
 
 
 def execute_live(prop: str, spec: dict, rules: set[str], nontrivial_keys: tuple[str, ...],
-                 share_blobs: bool = True, extra_observers=None) -> dict:
+                 share_blobs: bool = True, extra_observers=None, finish=None) -> dict:
     template, timing_refs = world_template(spec["world"])
     simclock.CLOCK.us = spec["t0_us"]
     world, info = worlds.instantiate("run", template, secrets_seed=base.sub_seed(spec["seed"], "secrets"),
@@ -174,11 +174,14 @@ def execute_live(prop: str, spec: dict, rules: set[str], nontrivial_keys: tuple[
         oracle = MediaOracle(sim, world, rules, timing_refs=timing_refs,
                              judge=lambda a: a.id.startswith("obs"))
         actors = []
+        extra = list(extra_observers(sim, world)) if extra_observers else []
         for a in spec["actors"]:
             p = Player(sim, a)
-            p.observers = [oracle] + list(extra_observers(sim, world) if extra_observers else [])
+            p.observers = [oracle] + extra
             actors.append(p)
         sim.run(actors)
+        if finish is not None:
+            finish()
         nontrivial = any(sim.checks.get(k) for k in nontrivial_keys)
         return base.outcome(prop, spec, sim, world, nontrivial=nontrivial,
                             extra={"sim_seconds": (simclock.CLOCK.us - spec["t0_us"]) / 1e6})
